@@ -23,16 +23,17 @@ pub struct ConIterOfVec<T: Send + Sync> {
 impl<T: Send + Sync> Drop for ConIterOfVec<T> {
     fn drop(&mut self) {
         let current = self.counter().current();
-        if current <= self.vec_len {
-            let _remaining_vec_to_be_dropped = unsafe { self.split_off_right(current) };
-        }
 
-        // release the buffer of the vector: the elements at its beginning have been moved out,
-        // the remaining ones are split off and dropped above
-        let vec = self.vec.get_mut();
+        // take the vector back: the elements at its beginning have been moved out, the remaining
+        // ones are dropped in place below; its buffer is released when `vec` goes out of scope,
+        // also when the destructor of one of the remaining elements panics
+        let mut vec = unsafe { ManuallyDrop::take(self.vec.get_mut()) };
+        let len = vec.len();
+        let begin = current.min(len);
         unsafe {
             vec.set_len(0);
-            ManuallyDrop::drop(vec);
+            let remaining = std::ptr::slice_from_raw_parts_mut(vec.as_mut_ptr().add(begin), len - begin);
+            std::ptr::drop_in_place(remaining);
         }
     }
 }
